@@ -84,6 +84,8 @@ type State struct {
 	nforks    int
 	covers    map[string]bool
 	lastMono  *Term
+	prevMono  *Term
+	clockJump bool
 	lastWall  *Term
 	obs       []observation
 	panicking *panicInfo
@@ -118,6 +120,8 @@ func (s *State) clone() *State {
 		nforks:    s.nforks,
 		covers:    make(map[string]bool, len(s.covers)),
 		lastMono:  s.lastMono,
+		prevMono:  s.prevMono,
+		clockJump: s.clockJump,
 		lastWall:  s.lastWall,
 		obs:       append([]observation(nil), s.obs...),
 		shared:    make(map[int]string, len(s.shared)),
